@@ -37,22 +37,23 @@ theorem just_facts (cfg : Cfg) (sh : Nat) (rcs : List Lvl1) (ps : List Base) (h 
 structure RcValid (cfg : Cfg) (sh : Nat) (rc : Lvl1) (r fd : Nat) : Prop where
   type : rc.type = tRoundChange
   round : rc.round = r
+  ident : rc.ident = cfg.ident
   sigOk : rc.sigOk = true
   signer : ∃ sg, rc.signers = [sg] ∧ sg ∈ cfg.committee
   prepared : rc.dataRound ≠ 0 →
-    (∀ pm ∈ rc.just, validSignedPrepare cfg pm sh rc.dataRound rc.root = .ok ()) ∧ fd = rc.root ∧
+    (∀ pm ∈ rc.just, pm.ident = cfg.ident ∧ validSignedPrepare cfg pm sh rc.dataRound rc.root = .ok ()) ∧ fd = rc.root ∧
     cfg.hasQuorum (signersOfB rc.just) = true ∧ rc.dataRound ≤ r
 
 theorem validRC_facts (cfg : Cfg) (sh : Nat) (rc : Lvl1) (h r fd : Nat) (u : Unit)
     (hv : validRoundChangeForData cfg sh rc h r fd = .ok u) : RcValid cfg sh rc r fd := by
   unfold validRoundChangeForData at hv
   simp only [bind_eq_ok, rejectIf_eq_ok, wrap_eq_ok] at hv
-  obtain ⟨_, h1, _, _, _, h3, _, h4, _, h5, _, _, h7⟩ := hv
+  obtain ⟨_, h1, _, _, _, h3, _, hi, _, h4, _, h5, _, _, h7⟩ := hv
   have ht : rc.type = tRoundChange := by simpa using h1
   have h5' : cfg.verifySig rc.toBase = true := by simpa using h5
   obtain ⟨hso, hc⟩ := verifySig_true cfg rc.toBase h5'
   obtain ⟨sg, hsg⟩ := length_one rc.signers (by simpa using h4)
-  refine ⟨ht, by simpa using h3, hso, ⟨sg, hsg, hc sg (by rw [hsg]; simp)⟩, ?_⟩
+  refine ⟨ht, by simpa using h3, by simpa using hi, hso, ⟨sg, hsg, hc sg (by rw [hsg]; simp)⟩, ?_⟩
   intro hne
   have hp : rc.toBase.rcPrepared = true := by
     unfold Base.rcPrepared
@@ -60,7 +61,12 @@ theorem validRC_facts (cfg : Cfg) (sh : Nat) (rc : Lvl1) (h r fd : Nat) (u : Uni
     simp [ht, e, hne]
   simp only [hp, if_true, bind_eq_ok, rejectIf_eq_ok, wrap_eq_ok] at h7
   obtain ⟨_, h8, _, h9, _, h10, h11⟩ := h7
-  refine ⟨firstFail_ok _ _ _ h8, by simpa [hashData] using h9, by simpa using h10, by simpa using h11⟩
+  refine ⟨?_, by simpa [hashData] using h9, by simpa using h10, by simpa using h11⟩
+  intro pm hpm
+  have := firstFail_ok _ _ _ h8 pm hpm
+  simp only [bind_eq_ok, rejectIf_eq_ok] at this
+  obtain ⟨_, a, b⟩ := this
+  exact ⟨by simpa using a, b⟩
 
 theorem hasQuorum_iff (cfg : Cfg) (l : List Nat) : cfg.hasQuorum l = true ↔ cfg.quorum ≤ uniqueCount l := by
   unfold Cfg.hasQuorum; simp
@@ -93,7 +99,7 @@ theorem step_H2 (X : StepCtx P hP T log i os os' bs evs) :
         p.round, hstale, ?_⟩
       exact before_of_mem (e := .P i' p.round p.root) (hpre'.propEv p hpin) hk
     · left
-      obtain ⟨hmok, hmr, hmroot⟩ := prepOK_of_valid X.hlog i' m _ _ _ hv ha
+      obtain ⟨hmok, hmr, hmroot⟩ := prepOK_of_valid X.hlog i' m _ _ _ hv ha.1 ha.2
       have hbucket : ∀ x ∈ forRound (s.prepare ++ [m]) s.round, PrepOK P T x ∧ x.round = s.round ∧ x.root = p.root := by
         intro x hx
         unfold forRound at hx
@@ -145,7 +151,7 @@ theorem step_H3 (X : StepCtx P hP T log i os os' bs evs) :
     have hfr : firstRound = 1 := rfl
     have hrne : m.round ≠ firstRound := by rw [hfr, ← hr]; omega
     obtain ⟨hrcs, hqrc⟩ := just_facts _ _ _ _ _ _ _ () hjust hrne
-    have hauth := authentic_rc ha
+    have hauth := authentic_rc ha.1
     have hrc : ∀ rc ∈ m.rcJust, (∃ sg, rc.signers = [sg] ∧ sg ∈ P.committee) ∧ rc.dataRound ≤ m.round ∧
         (0 < rc.dataRound → QAbs.PQ (ctxT P hP (T ++ evs)) k rc.dataRound rc.root ∧ rc.root = m.root) ∧
         (∀ j, P.honest j = true → opId j ∈ rc.signers → Ev.RC j m.round rc.dataRound rc.root ∈ T) := by
@@ -162,7 +168,7 @@ theorem step_H3 (X : StepCtx P hP T log i os os' bs evs) :
         have hpm : ∀ pm ∈ rc.just, pm.type = tPrepare ∧ pm.round = rc.dataRound ∧ pm.root = rc.root ∧ pm.sigOk = true ∧
             ∃ sg, pm.signers = [sg] ∧ sg ∈ P.committee := by
           intro pm hpmin
-          obtain ⟨a1, _, a3, a4, a5, a6⟩ := validSignedPrepare_ok _ _ _ _ _ _ (hpms pm hpmin)
+          obtain ⟨a1, _, a3, a4, a5, a6⟩ := validSignedPrepare_ok _ _ _ _ _ _ (hpms pm hpmin).2
           exact ⟨a1, a3, a4, a5, a6⟩
         have hcomm : ∀ sg ∈ signersOfB rc.just, sg ∈ P.committee := by
           intro sg hsg
@@ -175,11 +181,11 @@ theorem step_H3 (X : StepCtx P hP T log i os os' bs evs) :
         intro j hj hh
         obtain ⟨pm, hpmin, hs⟩ := (mem_signersOfB _ _).1 (hm' j hj)
         obtain ⟨a1, a3, a4, a5, _⟩ := hpm pm hpmin
-        have := (backed_event X.hlog (hb2 pm hpmin) a5 j hh hs).2.1 a1
+        have := (backed_event X.hlog (hb2 pm hpmin) a5 (hpms pm hpmin).1 j hh hs).2.1 a1
         rw [a3, a4] at this
         exact this
       · intro j hh hmem
-        have := (backed_event X.hlog hb1 V.sigOk j hh hmem).2.2.2 V.type
+        have := (backed_event X.hlog hb1 V.sigOk V.ident j hh hmem).2.2.2 V.type
         have e : rc.toBase.round = m.round := V.round
         rw [e] at this
         exact this
